@@ -273,6 +273,25 @@ func TestC07(t *testing.T) {
 			}
 		}
 	}
+	// ... and the corpus with its lists lengthened (slices with spare capacity: an append to "a copy" of one lands in
+	// the certificate, where the next lint finds it)
+	for ci, o := range gen.LoadCorpus().Certs {
+		if !stats.Mine(ci) {
+			continue
+		}
+		der, ok := paddedCert(o.DER, ci%2)
+		if !ok {
+			continue
+		}
+		c := engine.Case{Kind: gen.Cert, DER: der, Base: o.Name, Note: "lint-order", Ops: []string{fmt.Sprintf("pad-lists(%d)", ci%2)}}
+		rec.Eval()
+		rec.Class("order_corpus_padded")
+		if sig, msg := judgeOrder(rec, c, g); msg != "" {
+			if rec.Report("c07-order", sig, msg, c) {
+				t.Fatalf("c07 %s with padded lists: %s: %s", o.Name, sig, msg)
+			}
+		}
+	}
 	{
 		share := uint64(stats.Scale(4, 1))
 		if v := getenv("VERIF_C07_ORDER_SHARE"); v != "" {
